@@ -14,7 +14,7 @@ RULE = {
     "author": "me",
     "severity_score": 5,
     "fields": ["fieldA", "fieldE"],
-    "detection": {"sel": {"fieldA": ["foo*", "bar"], "fieldC": None, "fieldD": 5, "fieldG|fieldref": "fieldH", "fieldK": "kv", "Hashes": "MD5=aa11"}, "condition": "sel"},
+    "detection": {"sel": {"fieldA": ["foo*", "bar"], "fieldC": None, "fieldD": 5, "fieldG|fieldref": "fieldH", "fieldK": "kv", "Hashes": "MD5=aa11", "fieldS|cased": "Adm"}, "condition": "sel"},
 }
 
 
@@ -206,7 +206,7 @@ def run(tier: str, seed: int) -> int:
         "type (12 rule, 11 detection-item, 8 field-name conditions): every group alone with 0, 1 or 2 conditions in list form "
         "(default/and/or linking x negation) or map form with every expression over 1-2 identifiers, incl. the EMPTY group "
         "under every linking/negation setting, plus a seeded product of 12 x 12 x 10 groups; a marker transformation behind "
-        "a state-setting and a field-renaming item shows where it acted (7 detection items - two of them the replacements of a one-to-many renaming, one the replacement of a Hashes item -, a field reference in a value, 2 field-list entries, the rule); "
+        "a state-setting and a field-renaming item shows where it acted (8 detection items - one of them case-sensitive, two of them the replacements of a one-to-many renaming, one the replacement of a Hashes item -, a field reference in a value, 2 field-list entries, the rule); "
         "plus a marker post-processing item behind a first post-processing item of each kind (embed, simple_template, template, replace, none) "
         "gated on that item's application, plus the single-group gates once more with the marker items inside a nested pipeline; non-trivial = at least one condition",
         samples=samples,
